@@ -670,7 +670,23 @@ def rule_no_memo(chk):
             name = unparse(d.func if isinstance(d, ast.Call) else d).split(".")[-1]
             if name in MEMO_DECORATORS:
                 bad.append((f, name))
+    # the call form: `_render = lru_cache(maxsize=...)(_render_value)` / `cache(f)`
+    for m in ctx.p.modules.values():
+        if mods is not None and m.short not in mods:
+            continue
+        for x in ast.walk(m.tree):
+            if isinstance(x, ast.Call) and len(x.args) == 1 and isinstance(x.args[0], (ast.Name, ast.Attribute, ast.Lambda)) and not x.keywords:
+                fn_ = x.func.func if isinstance(x.func, ast.Call) else x.func
+                name = unparse(fn_).split(".")[-1]
+                if name in MEMO_DECORATORS and (isinstance(x.func, ast.Call) or name != "cached"):
+                    n += 1
+                    chk.bad("%s.state" % chk.pid, "%s:%s:memoised" % (m.short, unparse(x.args[0])[:40]), "%s:%d" % (m.relpath, x.lineno),
+                            "%s wraps %s in a cache keyed by argument equality: results are remembered across calls, and arguments that compare equal but render / behave differently "
+                            "(True, 1 and 1.0; 0.0 and -0.0) share one entry" % (unparse(x.func)[:40], unparse(x.args[0])[:40]))
+                    bad.append((None, name))
     for f, name in bad:
+        if f is None:
+            continue
         chk.bad("%s.state" % chk.pid, "%s:memoised" % f.fq, chk.where(f),
                 "%s is decorated with @%s: its result is remembered across calls and goes stale when the state it depends on (registry, context, fields, time) changes" % (f.fq, name))
     if not bad:
